@@ -130,6 +130,35 @@ let () =
       let bi x = if x then 1 else 0 in
       Printf.printf "%s\tfetch=%s ck2_unchanged=%d live_unchanged=%d restore2=%s:%d restore3=%s:%d\n" id (res_str fr) (bi same_ck) (bi live)
         (res_str r2) (bi (int_of_n b4.vs_val = 2)) (res_str r3) (bi (int_of_n b5.vs_val = 3))
+    | id :: "G" :: lid :: retry :: rl :: _t :: _i :: rest ->
+      let ps = (match rest with x :: _ when x <> "-" && x <> "" -> split_on ',' x | _ -> []) in
+      let peers = List.map (fun e -> match split_on ':' e with
+        | [r; a; ro; m; an] -> { p_replica = n_of_dec r; p_addr = bytes_of_hex a; p_root = bytes_of_hex ro; p_module = bytes_of_hex m; p_has = (an = "1") }
+        | _ -> failwith "bad peer") ps in
+      let b s = List.init (String.length s) (fun k -> n_of_int (Char.code s.[k])) in
+      let srcs = valid_sources (n_of_dec lid) (b "127.0.0.1") (b "/mine") (rl = "1") (b "ns-0") peers in
+      let out = (match choose_source (nat_of_int (int_of_string retry)) srcs with
+                 | None -> "none" | Some (a, d) -> hex_of_bytes a ^ " " ^ hex_of_bytes d) in
+      Printf.printf "%s\t%s\n" id out
+    | id :: "H" :: src :: t :: i :: skip :: rest ->
+      let es = (match rest with x :: _ when x <> "-" && x <> "" -> split_on ',' x | _ -> []) in
+      let bd = List.map (fun e -> match split_on ':' e with
+        | [nm; info; fl] ->
+          let files = if fl = "-" then [] else List.map (fun y -> match split_on '=' y with
+            | [fnm; ino] -> (bytes_of_hex fnm, n_of_dec ino) | _ -> failwith "bad file") (split_on '.' fl) in
+          (bytes_of_hex nm, { cd_info = (if info = "-" then None else Some (bytes_of_hex info)); cd_files = files })
+        | _ -> failwith "bad entry") es in
+      let out = (match reuse_plan bd (bytes_of_hex src) (enc_name (n_of_hex t) (n_of_hex i)) (nat_of_int (int_of_string skip)) with
+        | UPanic -> "panic"
+        | UDone (ru, bd') ->
+          let labels = Hashtbl.create 16 in
+          let lab ino = (match Hashtbl.find_opt labels ino with Some l -> l | None -> let l = Hashtbl.length labels + 1 in Hashtbl.add labels ino l; l) in
+          let dirs = List.map (fun (nm, c) ->
+            let fs = List.sort (fun (a, _) (b, _) -> compare (hex_of_bytes a) (hex_of_bytes b)) c.cd_files in
+            let fl = if fs = [] then "-" else String.concat "." (List.map (fun (fnm, ino) -> Printf.sprintf "%s=%d" (hex_of_bytes fnm) (lab (int_of_n ino))) fs) in
+            hex_of_bytes nm ^ ":" ^ (match c.cd_info with None -> "-" | Some x -> hex_of_bytes x) ^ ":" ^ fl) bd' in
+          "reused=" ^ (match ru with None -> "-" | Some x -> hex_of_bytes x) ^ " " ^ (if dirs = [] then "-" else String.concat "," dirs)) in
+      Printf.printf "%s\t%s\n" id out
     | id :: "CB" :: _eng :: point :: _ ->
       (* a backup killed after k of its steps; the engine is assumed to open half written directories *)
       let v = n_of_int 7 and garbage = n_of_int 9 in
